@@ -272,6 +272,8 @@ def report(module: Any, total: Result, tier: str, seed: int, wall: float, n_item
         for msg in vac(total, tier):
             harness_errors.append({"error": f"vacuous: {msg}"})
     if harness_errors:
+        REPLAY_DIR.mkdir(parents=True, exist_ok=True)
+        (REPLAY_DIR / f"{pid}-harness-errors.json").write_text(json.dumps(jsonable(harness_errors), indent=1))
         for e in harness_errors[:10]:
             print(f"HARNESS-ERROR property={pid}", json.dumps(jsonable(e))[:3000])
         exit_code = exit_code or 2
